@@ -12,4 +12,54 @@ PROPS = {
   "assumptions": ["the gRPC runtime invokes interceptors as the harness does (handler/invoker/stream are doubles)",
                   "classifier answers range over success/ignore/dropped as the property states"],
  },
+ "C04": {
+  "tests": ["TestC04"],
+  "rule": "random valid configurations of AIMD/Vegas/Gradient/Gradient2, each plain, traced, windowed and traced(windowed); sample streams "
+          "mix structured phases (steady, idle, overload, drop bursts), boundary-targeted values computed from the implementation's "
+          "state (in-flight around est/2 and est, RTT solved for Vegas' queue thresholds, RTT = baseline +-1) and edge values "
+          "(rtt 0, 1, 2^53+1, 2^62, in-flight 0 and 2^31-1); non-trivial = a sample that changed the estimate or carried an edge value; "
+          "distinct by (algorithm, wrapper, estimate before/after, inputs)",
+  "level_text": "C04_aimd_safe and C04_vegas_safe are proved for every sample list (unbounded length, all jitter draws, Log10 oracle in [2,400]): no panic, "
+                "finite estimate, reported integer within [1, ceiling]. Gradient/Gradient2 safety is covered by the bit-faithful model replay and the oracle "
+                "until their theorems land (see DESIGN.md).",
+  "level_note": "Trusted: Coq kernel + 4 stdlib real/classical axioms (Flocq); binary64 model of the Go float operations (amd64 int conversion, math.Max/Min); "
+                "math.Log10 beyond the lookup table and math/rand draws are oracle inputs constrained only by range; model tied to limit/*.go by bit-exact replay of every sample.",
+  "technique": "Coq/Flocq invariant proof over binary64 model + bit-exact differential replay",
+  "assumptions": ["rtt in [0,2^62], in-flight in [0,2^31)", "Vegas smoothing >= 8*2^-53*max (theorem hypothesis)", "window sums below 2^63 for the windowed wrapper"],
+ },
+ "C06": {
+  "tests": ["TestC06"],
+  "rule": "reachable states by random prefixes (as C04), every drop sample checked for non-increase and AIMD's exact rule, then a sustained run of "
+          "drops at the current baseline RTT until the floor; non-trivial = a drop sample / a completed floor run; distinct by (algorithm, estimate, inputs)",
+  "level_text": "C06_aimd_exact (the decrease rule with the binary64 product) and C06_aimd_nonincrease proved for all limits < 2^52 and ratios in [0,1]; "
+                "Vegas/Gradient non-increase and floor reachability are decided by replay + oracle on every run (theorems in progress).",
+  "level_note": "Trusted as C04. Known findings F5 (Gradient built below its queue allowance) and F19 (Vegas frozen by per-sample probing when multiplier*estimate <= 2) are replayed and reported as KNOWN-FINDING.",
+  "technique": "Coq/Flocq theorem for AIMD + differential replay and drop-run oracle for Vegas/Gradient",
+ },
+ "C07": {
+  "tests": ["TestC07"],
+  "rule": "random prefixes, every non-drop sample with in-flight below half the estimate (below the estimate for AIMD) checked for no raise; then a healthy saturated "
+          "run at the baseline RTT until within one of the ceiling; non-trivial = an app-limited sample / a completed recovery run",
+  "level_text": "C07_app_limited_{aimd,vegas,gradient,gradient2} proved for all states and samples (stored estimate untouched, nobody notified); C07_aimd_recovers proved; "
+                "recovery of Vegas/Gradient/Gradient2 is decided by replay + bounded-run oracle (theorems in progress).",
+  "level_note": "Trusted as C04. The app-limited theorems use the implementation's own float comparison as hypothesis (exact for in-flight < 2^31).",
+  "technique": "Coq case-analysis theorems + differential replay and recovery-run oracle",
+ },
+ "C15": {
+  "tests": ["TestC15"],
+  "rule": "streams with step changes up and down, small probe multipliers/intervals so that many resets occur; after every sample RTTNoLoad() is compared with the sample "
+          "and with the set of RTTs observed since the last reset; non-trivial = a sample after which the baseline is set; distinct by (algorithm, baseline, rtt)",
+  "level_text": "C15_{vegas,gradient}_baseline (baseline unset or not above the sample), C15_*_baseline_observed (baseline is an RTT seen since the last reset, by induction "
+                "over steps) and C15_gradient_reset_period (any draw stream) are proved; Vegas' reset period is decided by the oracle (needs float bound on the probe threshold).",
+  "level_note": "Trusted as C04; RTTs below 2^53 so that float64(rtt) is exact.",
+  "technique": "Coq structural induction over the step function + differential replay",
+ },
+ "C16": {
+  "tests": ["TestC16"],
+  "rule": "all six limit kinds x {plain, traced, windowed, traced(windowed)}, listeners registered at random points of the history, explicit SetLimit on the settable limit; "
+          "non-trivial = a step that changed the reported estimate with at least one listener registered; distinct by (kind, wrapper, before, after, listener)",
+  "level_text": "C16_step, C16_last_agrees, C16_suffix, C16_settable proved for every limit kind, wrapper and history.",
+  "level_note": "Trusted as C04; Settable values within int32.",
+  "technique": "Coq structural theorems over all limit models + differential replay of per-listener logs",
+ },
 }
